@@ -159,18 +159,18 @@ def plainD : Event α → Bool
 
 theorem step_frame (s s' : WState α) (e : Event α) (r : Nat) (h : step s e = some (s', r)) (hp : plainD e = true) :
     s.stamper ≤ s'.stamper ∧ s'.merges = s.merges ∧ s'.metas = s.metas
-      ∧ (s.stamper < s'.stamper ∨ s'.log = s.log) := by
+      ∧ (s.stamper < s'.stamper ∨ s'.log = s.log) ∧ s'.committedOpstamp = s.committedOpstamp := by
   cases e with
   | add d =>
     simp only [step, Option.some.injEq, Prod.mk.injEq] at h; obtain ⟨rfl, _⟩ := h
-    exact ⟨Nat.le_succ _, rfl, rfl, Or.inl (Nat.lt_succ_self _)⟩
+    exact ⟨Nat.le_succ _, rfl, rfl, Or.inl (Nat.lt_succ_self _), rfl⟩
   | del q =>
     simp only [step, Option.some.injEq, Prod.mk.injEq] at h; obtain ⟨rfl, _⟩ := h
-    exact ⟨Nat.le_succ _, rfl, rfl, Or.inl (Nat.lt_succ_self _)⟩
+    exact ⟨Nat.le_succ _, rfl, rfl, Or.inl (Nat.lt_succ_self _), rfl⟩
   | batch items =>
     simp only [step, batch_fold, List.nil_append, Option.some.injEq, Prod.mk.injEq] at h
     obtain ⟨rfl, _⟩ := h
-    refine ⟨?_, rfl, rfl, Or.inl ?_⟩
+    refine ⟨?_, rfl, rfl, Or.inl ?_, rfl⟩
     · show s.stamper ≤ s.stamper + items.length + 1
       omega
     · show s.stamper < s.stamper + items.length + 1
@@ -179,7 +179,7 @@ theorem step_frame (s s' : WState α) (e : Event α) (r : Nat) (h : step s e = s
     simp only [step] at h
     split at h
     · simp only [Option.some.injEq, Prod.mk.injEq] at h; obtain ⟨rfl, _⟩ := h
-      exact ⟨Nat.le_succ _, rfl, rfl, Or.inl (Nat.lt_succ_self _)⟩
+      exact ⟨Nat.le_succ _, rfl, rfl, Or.inl (Nat.lt_succ_self _), rfl⟩
     · cases h
   | recv w =>
     simp only [step] at h
@@ -188,30 +188,30 @@ theorem step_frame (s s' : WState α) (e : Event α) (r : Nat) (h : step s e = s
       · split at h
         · cases h
         · simp only [Option.some.injEq, Prod.mk.injEq] at h; obtain ⟨rfl, _⟩ := h
-          exact ⟨Nat.le_refl _, rfl, rfl, Or.inr rfl⟩
+          exact ⟨Nat.le_refl _, rfl, rfl, Or.inr rfl, rfl⟩
       · simp only [Option.some.injEq, Prod.mk.injEq] at h; obtain ⟨rfl, _⟩ := h
-        exact ⟨Nat.le_refl _, rfl, rfl, Or.inr rfl⟩
+        exact ⟨Nat.le_refl _, rfl, rfl, Or.inr rfl, rfl⟩
     · cases h
   | cut w =>
     simp only [step] at h
     split at h
     · split at h
       · simp only [Option.some.injEq, Prod.mk.injEq] at h; obtain ⟨rfl, _⟩ := h
-        exact ⟨Nat.le_refl _, rfl, rfl, Or.inr rfl⟩
+        exact ⟨Nat.le_refl _, rfl, rfl, Or.inr rfl, rfl⟩
       · cases h
     · cases h
   | register =>
     simp only [step] at h
     split at h
     · simp only [Option.some.injEq, Prod.mk.injEq] at h; obtain ⟨rfl, _⟩ := h
-      exact ⟨Nat.le_refl _, rfl, rfl, Or.inr rfl⟩
+      exact ⟨Nat.le_refl _, rfl, rfl, Or.inr rfl, rfl⟩
     · cases h
   | tick =>
     simp only [step, Option.some.injEq, Prod.mk.injEq] at h; obtain ⟨rfl, _⟩ := h
-    exact ⟨Nat.le_succ _, rfl, rfl, Or.inl (Nat.lt_succ_self _)⟩
+    exact ⟨Nat.le_succ _, rfl, rfl, Or.inl (Nat.lt_succ_self _), rfl⟩
   | flush =>
     simp only [step, Option.some.injEq, Prod.mk.injEq] at h; obtain ⟨rfl, _⟩ := h
-    exact ⟨Nat.le_refl _, rfl, rfl, Or.inr rfl⟩
+    exact ⟨Nat.le_refl _, rfl, rfl, Or.inr rfl, rfl⟩
   | deleteAll => simp [plainD] at hp
   | rollback => simp [plainD] at hp
   | commit p => simp [plainD] at hp
@@ -219,6 +219,91 @@ theorem step_frame (s s' : WState α) (e : Event α) (r : Nat) (h : step s e = s
   | mergeEnd k => simp [plainD] at hp
   | stamp op => simp [plainD] at hp
   | publish k => simp [plainD] at hp
+
+/-- the opstamp of `meta.json` and `committed_opstamp` change at `commit` and `rollback` only -/
+theorem step_commit_stamps (s s' : WState α) (e : Event α) (r : Nat) (h : step s e = some (s', r))
+    (he : plainD e = true ∨ e = .deleteAll ∨ (∃ ids policy, e = .mergeStart ids policy) ∨ (∃ k, e = .mergeEnd k)) :
+    s'.metas.opstamp = s.metas.opstamp ∧ s'.committedOpstamp = s.committedOpstamp := by
+  rcases he with hp | rfl | ⟨ids, policy, rfl⟩ | ⟨k, rfl⟩
+  · obtain ⟨_, _, f3, _, f5⟩ := step_frame s s' e r h hp
+    exact ⟨by rw [f3], f5⟩
+  · simp only [step, Option.some.injEq, Prod.mk.injEq] at h
+    obtain ⟨rfl, _⟩ := h
+    exact ⟨rfl, rfl⟩
+  · simp only [step] at h
+    split at h
+    · cases h
+    · split at h
+      · simp only [Option.some.injEq, Prod.mk.injEq] at h; obtain ⟨rfl, _⟩ := h; exact ⟨rfl, rfl⟩
+      · split at h
+        · simp only [Option.some.injEq, Prod.mk.injEq] at h; obtain ⟨rfl, _⟩ := h; exact ⟨rfl, rfl⟩
+        · cases h
+  · simp only [step] at h
+    split at h
+    · cases h
+    · split at h
+      · simp only [Option.some.injEq, Prod.mk.injEq] at h; obtain ⟨rfl, _⟩ := h; exact ⟨rfl, rfl⟩
+      · split at h
+        · simp only [Option.some.injEq, Prod.mk.injEq] at h; obtain ⟨rfl, _⟩ := h; exact ⟨rfl, rfl⟩
+        · simp only [Option.some.injEq, Prod.mk.injEq] at h; obtain ⟨rfl, _⟩ := h; exact ⟨rfl, rfl⟩
+
+/-- has this writer object committed since it was created (`IndexWriter::new`, `rollback`) -/
+def sessStep (c : Bool) : Event α → Bool
+  | .commit _ => true
+  | .rollback => false
+  | _ => c
+
+/-- the hypothesis `bookRun` read off the sequence of calls: `delete_all_documents` only before
+the first commit of the writer object; no sub-steps -/
+def bookHist (c : Bool) : List (Event α) → Bool
+  | [] => true
+  | e :: es =>
+    (match e with
+      | .deleteAll => !c
+      | .stamp _ => false
+      | .publish _ => false
+      | _ => true) && bookHist (sessStep c e) es
+
+theorem bookRun_of_hist (s : WState α) (c : Bool) (es : List (Event α))
+    (hc : c = false → s.metas.opstamp ≤ s.committedOpstamp) (h : bookHist c es = true) : bookRun s es := by
+  induction es generalizing s c with
+  | nil => trivial
+  | cons e es ih =>
+    simp only [bookHist, Bool.and_eq_true] at h
+    obtain ⟨h1, h2⟩ := h
+    refine ⟨?_, fun s' r hs => ih s' (sessStep c e) ?_ h2⟩
+    · cases e with
+      | deleteAll =>
+        have : c = false := by simpa using h1
+        exact hc this
+      | stamp op => simp at h1
+      | publish k => simp at h1
+      | _ => trivial
+    · intro hcf
+      cases e with
+      | commit p => simp [sessStep] at hcf
+      | rollback =>
+        have : step s .rollback = some (rollbackState s, s.metas.opstamp) := rfl
+        rw [this] at hs
+        simp only [Option.some.injEq, Prod.mk.injEq] at hs
+        obtain ⟨rfl, _⟩ := hs
+        exact Nat.le_refl _
+      | stamp op => simp at h1
+      | publish k => simp at h1
+      | add d => obtain ⟨a, b⟩ := step_commit_stamps s s' _ r hs (Or.inl rfl); rw [a, b]; exact hc hcf
+      | del q => obtain ⟨a, b⟩ := step_commit_stamps s s' _ r hs (Or.inl rfl); rw [a, b]; exact hc hcf
+      | batch items => obtain ⟨a, b⟩ := step_commit_stamps s s' _ r hs (Or.inl rfl); rw [a, b]; exact hc hcf
+      | prepare => obtain ⟨a, b⟩ := step_commit_stamps s s' _ r hs (Or.inl rfl); rw [a, b]; exact hc hcf
+      | recv w => obtain ⟨a, b⟩ := step_commit_stamps s s' _ r hs (Or.inl rfl); rw [a, b]; exact hc hcf
+      | cut w => obtain ⟨a, b⟩ := step_commit_stamps s s' _ r hs (Or.inl rfl); rw [a, b]; exact hc hcf
+      | register => obtain ⟨a, b⟩ := step_commit_stamps s s' _ r hs (Or.inl rfl); rw [a, b]; exact hc hcf
+      | tick => obtain ⟨a, b⟩ := step_commit_stamps s s' _ r hs (Or.inl rfl); rw [a, b]; exact hc hcf
+      | flush => obtain ⟨a, b⟩ := step_commit_stamps s s' _ r hs (Or.inl rfl); rw [a, b]; exact hc hcf
+      | deleteAll => obtain ⟨a, b⟩ := step_commit_stamps s s' _ r hs (Or.inr (Or.inl rfl)); rw [a, b]; exact hc hcf
+      | mergeStart ids policy =>
+        obtain ⟨a, b⟩ := step_commit_stamps s s' _ r hs (Or.inr (Or.inr (Or.inl ⟨ids, policy, rfl⟩))); rw [a, b]; exact hc hcf
+      | mergeEnd k =>
+        obtain ⟨a, b⟩ := step_commit_stamps s s' _ r hs (Or.inr (Or.inr (Or.inr ⟨k, rfl⟩))); rw [a, b]; exact hc hcf
 
 /-- what is known of the book in a run whose stamper never went below `meta.opstamp` -/
 structure BInv (s : WState α) (B : Book) : Prop where
@@ -274,7 +359,7 @@ theorem stepD_step (s : WState α) (B : Book) (e : Event α) (sb' : WState α ×
       rw [hs] at h
       simp only [Option.map_some, Option.some.injEq, Prod.mk.injEq] at h
       obtain ⟨rfl, rfl⟩ := h
-      obtain ⟨f1, f2, f3, f4⟩ := step_frame s s' e r' hs hp
+      obtain ⟨f1, f2, f3, f4, _⟩ := step_frame s s' e r' hs hp
       refine ⟨rfl, ⟨?_, ?_, ?_, ?_, ?_⟩⟩
       · show ∀ i t, B.delOp i = some t → t ≤ s'.metas.opstamp
         rw [f3]; exact hb.le
